@@ -15,6 +15,7 @@ LEVEL_NOTE = "thin claim: enforcement only; result-set properties are not decide
 def run(ctx):
     from . import guardvocab
     guardvocab.G0(ctx, effects={'backtrack'})
+    guardvocab.G1(ctx, effects={'backtrack'})
     pathrules.E1(ctx)
     pathrules.E2(ctx)
     pathrules.E3(ctx)
